@@ -281,10 +281,10 @@ ResetLivelockSig ==
         \* ... and what the leader has from the first of them on does not fit into one append_entries message: every round the
         \* answers to the later messages (each names its own conflicting previous entry) overwrite the answer to the first
         /\ LET ci == CHOOSE j \in confl : \A k \in confl : j <= k
-               after == {k \in 1..Len(ll) : ll[k].idx >= ci}
-               RECURSIVE Sum(_)
-               Sum(S) == IF S = {} THEN 0 ELSE LET k == CHOOSE x \in S : TRUE IN ll[k].sz + Sum(S \ {k})
-           IN IF UseBatch THEN Sum(after) > BatchBytes ELSE Cardinality(after) >= 2
+               p0 == ci - ll[1].idx + 1                 \* position of that index in the leader's log
+               RECURSIVE SumFrom(_)
+               SumFrom(q) == IF q > Len(ll) THEN 0 ELSE ll[q].sz + SumFrom(q + 1)
+           IN IF UseBatch THEN SumFrom(p0) > BatchBytes ELSE Len(ll) - p0 + 1 >= 2
 
 StateViolations ==
      (IF ApplyAgreement THEN {} ELSE {"C01.ApplyAgreement"})
